@@ -45,10 +45,12 @@ class PathResult:
     pass
 
 
-def run_path(mod, job, prefix, feas):
+def run_path(mod, job, prefix, feas, enum=None):
     m = make_machine(mod, job)
     m.prefix = prefix
     m.feas = feas
+    m.enum_values = enum
+    m.concretize = bool(job.get('concretize', False))
     pr = PathResult()
     pr.outcome = 'return'
     pr.detail = ''
@@ -86,6 +88,29 @@ def make_feas(job, workdir):
             res.append(ans[0] != 'unsat')
         return res[0], res[1]
     return feas
+
+
+def make_enum(job, workdir):
+    """feasible values of an integer term under the path condition (solver-enumerated, for concretisation)"""
+    def enum(m, t, limit):
+        found = []
+        while len(found) < limit:
+            extra = [f'(not (= __cv {smt.num(v, "I")}))' for v in found]
+            cv = sym('__cv', 'I')
+            text, logic, nd = smt.build(list(m.assumptions) + [mk_cmp('eq', cv, t)], [True], extra_asserts=extra, want_values=['__cv'])
+            ans, wall, raw = smt.run(text, 'z3', 30, workdir, tag='enum', per_query_ms=20000)
+            if not ans or ans[0] != 'sat':
+                if ans and ans[0] not in ('unsat',):
+                    raise EngineError(f'value enumeration undecided: {ans}')
+                break
+            env = smt.parse_values(raw)
+            if not env or env.get('__cv') is None:
+                raise EngineError('value enumeration: no model value')
+            found.append(int(env['__cv']))
+        else:
+            raise EngineError(f'more than {limit} feasible values while concretising')
+        return sorted(found)
+    return enum
 
 
 def goal_of(ob):
@@ -260,6 +285,7 @@ def _job_worker(idx):
     workdir = os.path.join(_OUTDIR, f'job{idx}')
     os.makedirs(workdir, exist_ok=True)
     feas = make_feas(job, workdir)
+    enum = make_enum(job, workdir) if job.get('concretize') else None
     worklist = [()]
     paths = []
     summary = dict(idx=idx, label=job.get('label', job['entry']), entry=job['entry'], args=job.get('args', []), paths=[],
@@ -270,7 +296,7 @@ def _job_worker(idx):
     bsize = job.get('batch', 8)
     while worklist:
         prefix = worklist.pop()
-        pr = run_path(_MOD, job, prefix, feas)
+        pr = run_path(_MOD, job, prefix, feas, enum)
         m = pr.m
         worklist.extend(m.pending)
         summary['steps'] += m.steps
